@@ -25,6 +25,17 @@ func modulesPrograms(r *rand.Rand, n int) []*Program {
 		func() *Node { return Undef() },
 		func() *Node { return ErrE(Str("e")) },
 		func() *Node { return Imm(Arr(Int(1))) },
+		// every expression form that can yield a container
+		func() *Node { return Bin("+", Arr(Int(1), Int(2)), Arr(Int(3))) },
+		func() *Node { return Bin("||", Undef(), Map([]string{"a", "b"}, []*Node{Int(1), Arr(Int(2))})) },
+		func() *Node { return Bin("&&", Bool(true), Arr(Int(1), Arr(Int(2)))) },
+		func() *Node { return Cond(Bool(true), Arr(Int(1), Int(2)), Int(0)) },
+		func() *Node { return Call(Fn(nil, false, Ret(Map([]string{"a", "b"}, []*Node{Int(1), Arr(Int(2))})))) },
+		func() *Node { return Idx(Arr(Arr(Int(5), Int(6)), Int(1)), Int(0)) },
+		func() *Node { return Slice(Arr(Int(1), Int(2), Int(3)), Int(1), nil) },
+		func() *Node { return Call(Id("copy"), Arr(Int(1), Arr(Int(2)))) },
+		func() *Node { return Call(Id("append"), Arr(Int(1)), Arr(Int(2))) },
+		func() *Node { return Sel(Map([]string{"a"}, []*Node{Arr(Int(1), Int(2))}), "a") },
 	}
 	for i, e := range exports {
 		// plain import of every export kind; type and immutability observed
